@@ -111,8 +111,13 @@ class TorchNNPureFunction(PureFunction):
             # under the names found at construction and keep those names
             return [get_attr(self.obj, name) for name in self.names]
 
-        # get the tensors in the torch.nn.Module to be used as params
-        named_params = list(self.obj.named_parameters())
+        # get the tensors in the torch.nn.Module to be used as params.
+        # Every name is listed, also when one Parameter is registered under several
+        # names (named_parameters() reports only the first of them), so that all
+        # of them are substituted together; objparams() stays unique.
+        named_params = [(mname + ("." if mname else "") + pname, p)
+                        for mname, m in self.obj.named_modules(remove_duplicate=False)
+                        for pname, p in m._parameters.items() if p is not None]
         if len(named_params) == 0:
             paramnames: List[str] = []
             obj_params: List[Union[torch.Tensor, torch.nn.Parameter]] = []
